@@ -3,6 +3,8 @@ import Gnet.Driver.LinkedList
 import Gnet.Driver.Elastic
 import Gnet.Driver.Arith
 import Gnet.Driver.Registry
+import Gnet.Driver.LB
+import Gnet.Driver.Pool
 
 def main (args : List String) : IO UInt32 := do
   match args with
@@ -11,4 +13,6 @@ def main (args : List String) : IO UInt32 := do
   | ["elastic"] => Gnet.Driver.ElasticD.main; return 0
   | ["arith"] => Gnet.Driver.ArithD.main; return 0
   | ["registry"] => Gnet.Driver.RegD.main; return 0
+  | ["lb"] => Gnet.Driver.LBD.main; return 0
+  | ["pool"] => Gnet.Driver.PoolD.main; return 0
   | _ => IO.eprintln "usage: gnetmodel <component>"; return 2
